@@ -16,6 +16,22 @@ class UserLink(SymlinkNodeMixin):
         self.parent = parent
 
 
+class PropLink(SymlinkNodeMixin):
+    """a user link class whose `target` is a property (the mixin's contract is only that the instance HAS a `target`
+    attribute; here it is looked up in a registry kept outside the instance dictionary)"""
+    _registry = {}
+
+    def __init__(self, target, parent=None, **kwargs):
+        PropLink._registry[id(self)] = (self, target)
+        for k, v in kwargs.items():
+            setattr(self.target, k, v)
+        self.parent = parent
+
+    @property
+    def target(self):
+        return PropLink._registry[id(self)][1]
+
+
 class Shortcut(SymlinkNode):
     """a user subclass of the link class with a class-level attribute of its own: reading `kind` on such a link - or on a
     link TO such a link - is answered by this class (ordinary attribute lookup on the link), not forwarded further"""
@@ -105,6 +121,8 @@ def impl(case):
                 cls = UserLink if (case.get("userlink") and not kw) else SymlinkNode
                 if op.get("cls") == "user":
                     cls = Shortcut
+                elif op.get("cls") == "prop":
+                    cls = PropLink
                 objs.append(cls(objs[op["t"]], **kw))
             elif k == "set":
                 setattr(objs[op["i"]], op["k"], vals.obj(op["v"]))
